@@ -335,6 +335,13 @@ class Waiting(State):
             self.done_callback = None
         self._waiting_future = futures.Future()
 
+    def exit(self) -> None:
+        super().exit()
+        if self._waiting_future.done() and not self._waiting_future.cancelled():
+            # Nobody is going to await this future any more (an interruption delivered while the state was not
+            # executing): do not leave an exception behind that is never retrieved
+            self._waiting_future.exception()
+
     def interrupt(self, reason: Any) -> None:
         # This will cause the future in execute() to raise the exception
         if self._waiting_future.done():
